@@ -1,7 +1,7 @@
 (** C13 - Mermaid export declares exactly the admitted nodes and only edges
     between them.  Only statements. *)
 Require Import AT.Model.Base AT.Model.Rose AT.Model.Iter AT.Model.Graph AT.Spec.IterSpec AT.Spec.GraphSpec.
-Require AT.Proofs.GraphProofs AT.Proofs.IterPre AT.Generated.Extracted.
+Require AT.Proofs.GraphProofs AT.Proofs.IterPre AT.Generated.Extracted AT.Proofs.Digits.
 Import AT.Proofs.GraphProofs.
 
 (** one node line per admitted node that passes filter_, in pre-order *)
@@ -37,6 +37,17 @@ Proof.
   intros uses a b v. apply tbl_injective. apply tbl_after_ok. split; [reflexivity|constructor].
 Qed.
 Print Assumptions C13_ids_injective.
+
+(** the printed identifier "N" + decimal digits determines the counter value:
+    distinct declared nodes have distinct printed default identifiers *)
+Theorem C13_names_distinct : forall uses m n v w,
+  tbl_find (tbl_after [] uses) m = Some v -> tbl_find (tbl_after [] uses) n = Some w ->
+  tbl_name (fun v => 78%N :: dec v) (tbl_after [] uses) m = tbl_name (fun v => 78%N :: dec v) (tbl_after [] uses) n -> m = n.
+Proof.
+  intros uses m n v w. apply (AT.Proofs.Digits.names_distinct (fun v => 78%N :: dec v) AT.Proofs.Digits.mermaid_id_injective).
+  intros a b x. apply C13_ids_injective.
+Qed.
+Print Assumptions C13_names_distinct.
 
 (** nodenamefunc / nodefunc / edgefunc results and indent appear verbatim *)
 Theorem C13_verbatim : forall indent name ntext etext n c,
